@@ -36,7 +36,14 @@ PROP = dict(
           "expected bytes by construction, cross-checked with the reference interpreter; the text is delivered as a file argument, on stdin "
           "redirected from a file and on stdin through a pipe (written in chunks of a generated size), the output taken from stdout or from the "
           "file named by the second argument, with and without explicit '-' arguments: exit status 0 and output == expected for each delivery; the "
-          "library call on the same long text is compared too. (c) dumps: every 1-4-way partition of buffers "
+          "library call on the same long text is compared too. (b3) how the text ends (subcheck tooltail): a generated documented text of 0..20000 characters "
+          "(also ending within 40 characters of 4096 / 65536) followed by a tail - an open \"...\" or '...' string (with content, optionally a backslash last), an "
+          "open /* comment, a // comment without its newline, a # ## ### #### % %% marker with or without a numeral, a single hex digit, a cut through the generated "
+          "text at an arbitrary character, or nothing - and then 0..8 bytes drawn from space / tab / CR / LF (data inside an open string); exhaustive part: 2 heads x 14 "
+          "tails x every blank string of length 0..2. The tool is the command-line face of the parser: for each of the three deliveries exit status 0 and output == "
+          "parse_data_string(exactly the bytes delivered) as computed in-process by the library of the same tree (mask.size() == data.size() there); where the "
+          "reference interpreter says the whole text is documented syntax the library bytes and mask equal the reference's too; non-trivial = the text ends in an "
+          "unfinished construct or in a blank. (c) dumps: every 1-4-way partition of buffers "
           "of 0..12/20 bytes, every third/every combination of column, float-endianness, offset-width, colour, collapse and separator flags on 5 data "
           "shapes x 4 start addresses x with/without previous buffer, every size 0..48 at every alignment at 7 base addresses (incl. 2^64-80, 2^64-48, 2^64-16), plus rapidcheck dumps of 0..600 bytes with "
           "planted zero runs and float specials at start addresses 0, aligned, unaligned, around 2^8/2^16/2^32 and near the top of the address space (dumps ending up to and including 2^64); non-trivial = "
@@ -55,12 +62,14 @@ PROP = dict(
                  "numerals, inf/nan floats, hexadecimal floats without digits or without a binary exponent, floats whose value is outside the finite "
                  "non-zero range of the format, NUL bytes, a construct between the two digits of a hex pair) are only required to be handled "
                  "without crash and with mask.size() == data.size()",
+                 "tooltail: for a text that stops inside an open string / comment / numeral the syntax documents no closing, so no byte expectation is "
+                 "built from the syntax; the only expectation is that the tool prints what parse_data_string of the same tree returns for the same bytes",
                  "NaN fields of the float columns are compared ignoring the sign",
                  "a float literal denotes the IEEE-754 value of the requested width nearest to its exact value, ties to even (decimal literals and "
                  "C99/C++17 hexadecimal literals 0xH.HpN alike)",
                  "bigdump: no colour, no previous buffer, no float/double columns; the output callback may throw between two lines"],
     min_evaluations_quick=100000,
-    min_per_check_quick=dict(roundtrip=200000, grammar=60000, parse_any=36000, dump=40000, bigdump=1500, c09_fuzz=20000, tool=200),
+    min_per_check_quick=dict(roundtrip=200000, grammar=60000, parse_any=36000, dump=40000, bigdump=1500, c09_fuzz=20000, tool=200, tooltail=600),
     min_per_check_thorough=dict(roundtrip=2800000, grammar=700000, parse_any=1300000, dump=600000, bigdump=15000, c09_fuzz=500000),
     technique=("property-based testing + coverage-guided fuzzing: round-trip oracle for format_data_string/parse_data_string; an independently written "
                "reference interpreter of the documented data-string syntax plus by-construction expectations for grammar-generated text; an "
